@@ -43,6 +43,9 @@ pub struct K17 {
     /// round the compass in 0.02 degree steps while the Map tab is shown
     #[serde(default)]
     pub compass: usize,
+    /// time the client spends on each operator event, cycled
+    #[serde(default)]
+    pub ev_delay_us: Vec<u64>,
 }
 
 fn default_rx() -> (f64, f64) {
@@ -111,7 +114,7 @@ pub const INVALID_CLI: [&[&str]; 18] = [
 pub fn generate(rng: &mut Rng, fault_free: bool) -> K17 {
     if !fault_free && rng.chance(0.08) {
         let a = *rng.pick(&INVALID_CLI);
-        return K17 { args: vec![], cols: 80, rows: 24, refused_first: 0, lines: vec![], events: vec![], quit_at_us: 100_000, quit_ctrl_c: false, proc_delay_us: vec![], reconnect_at_us: None, invalid_cli: Some(a.iter().map(|s| s.to_string()).collect()), rx: (35.0, -80.0), sweep: 0, compass: 0 };
+        return K17 { args: vec![], cols: 80, rows: 24, refused_first: 0, lines: vec![], events: vec![], quit_at_us: 100_000, quit_ctrl_c: false, proc_delay_us: vec![], reconnect_at_us: None, invalid_cli: Some(a.iter().map(|s| s.to_string()).collect()), rx: (35.0, -80.0), sweep: 0, compass: 0, ev_delay_us: vec![] };
     }
     let (cols, rows) = if fault_free {
         *rng.pick(&[(80u16, 24u16), (120, 40)])
@@ -262,6 +265,7 @@ pub fn generate(rng: &mut Rng, fault_free: bool) -> K17 {
         }
         events.sort_by_key(|e| e.at_us);
     }
+    let ev_delay_us: Vec<u64> = if !fault_free && rng.chance(0.3) { (0..5).map(|_| *rng.pick(&[0u64, 0, 20, 200, 1_000, 3_000])).collect() } else { vec![] };
     // a session left alone: nothing from the operator and nothing new from the server for one to
     // five minutes of simulated time (every timer the client may own fires in that time)
     let long_quiet = !fault_free && rng.chance(0.012);
@@ -310,9 +314,9 @@ pub fn generate(rng: &mut Rng, fault_free: bool) -> K17 {
         let args: Vec<String> = args.into_iter().filter(|a| !a.starts_with("--filter-time") && a != "--retry-tcp" && !a.starts_with("--max-range") && a != "--limit-parsing").collect();
         let mut args = args;
         args.retain(|a| a != "--disable-heading");
-        return K17 { args, cols, rows, refused_first: 0, lines: vec![], events, quit_at_us, quit_ctrl_c: false, proc_delay_us: vec![], reconnect_at_us: None, invalid_cli: None, rx: (35.0, -80.0), sweep, compass };
+        return K17 { args, cols, rows, refused_first: 0, lines: vec![], events, quit_at_us, quit_ctrl_c: false, proc_delay_us: vec![], reconnect_at_us: None, invalid_cli: None, rx: (35.0, -80.0), sweep, compass, ev_delay_us: vec![] };
     }
-    K17 { args, cols, rows, refused_first, lines, events, quit_at_us, quit_ctrl_c: rng.chance(0.3), proc_delay_us, reconnect_at_us, invalid_cli: None, rx: RX, sweep: 0, compass: 0 }
+    K17 { args, cols, rows, refused_first, lines, events, quit_at_us, quit_ctrl_c: rng.chance(0.3), proc_delay_us, reconnect_at_us, invalid_cli: None, rx: RX, sweep: 0, compass: 0, ev_delay_us }
 }
 
 pub fn compile(sc: &K17) -> KChild {
@@ -368,7 +372,7 @@ pub fn compile(sc: &K17) -> KChild {
         let mut events = sc.events.clone();
         events.sort_by_key(|e| e.at_us);
         events.push(KEvent { at_us: sc.quit_at_us.max(events.last().map(|e| e.at_us).unwrap_or(0)), ev: KEv::Key { code: "c:q".into(), ctrl: false, shift: false, alt: false } });
-        return KChild { connects, events, proc_delay_us: vec![], coalesce: vec![false], step_budget: 60_000 + 8 * (sc.sweep + sc.compass) as u64 };
+        return KChild { gpsd: None, ev_delay_us: vec![], connects, events, proc_delay_us: vec![], coalesce: vec![false], step_budget: 60_000 + 8 * (sc.sweep + sc.compass) as u64 };
     }
     match sc.reconnect_at_us.filter(|_| sc.args.iter().any(|a| a == "--retry-tcp")) {
         Some(rc) => {
@@ -383,7 +387,7 @@ pub fn compile(sc: &K17) -> KChild {
     let q = if sc.quit_ctrl_c { KEv::Key { code: "c:c".into(), ctrl: true, shift: false, alt: false } } else { KEv::Key { code: "c:q".into(), ctrl: false, shift: false, alt: false } };
     events.push(KEvent { at_us: sc.quit_at_us.max(events.last().map(|e| e.at_us).unwrap_or(0)), ev: q });
     // three seam calls per idle iteration of 60 ms
-    KChild { connects, events, proc_delay_us: sc.proc_delay_us.clone(), coalesce: vec![], step_budget: 40_000 + sc.quit_at_us / 12_000 }
+    KChild { gpsd: None, ev_delay_us: sc.ev_delay_us.clone(), connects, events, proc_delay_us: sc.proc_delay_us.clone(), coalesce: vec![], step_budget: 40_000 + sc.quit_at_us / 12_000 }
 }
 
 pub fn is_quit_json(j: &str) -> bool {
@@ -584,6 +588,9 @@ pub fn shrink(sc: &K17) -> Vec<K17> {
     }
     if sc.refused_first > 0 {
         c.push(K17 { refused_first: 0, ..sc.clone() });
+    }
+    if !sc.ev_delay_us.is_empty() {
+        c.push(K17 { ev_delay_us: vec![], ..sc.clone() });
     }
     if !sc.proc_delay_us.is_empty() {
         c.push(K17 { proc_delay_us: vec![], ..sc.clone() });
